@@ -86,7 +86,8 @@ class Unit:
 
     def __init__(self, name, entry, make, post, base=None, inputs=None, replay=None, loop_budget=64, loop_budgets=None, timeout_ms=20000,
                  max_paths=4000, observers=None, panics='violation', panic_ok=None, budget='violation', bounds=None, assumptions=None,
-                 known_pos=None, canary=None, judge=None, allow_unsupported_paths=False, path_filter=None, tol_margin=None, int_only=False, lin_inc=False):
+                 known_pos=None, canary=None, judge=None, allow_unsupported_paths=False, path_filter=None, tol_margin=None, int_only=False, lin_inc=False, const_generics=None):
+        self.const_generics = const_generics or {}
         self.int_only = int_only
         self.lin_inc = lin_inc
         self.name, self.entry, self.make, self.post = name, entry, make, post
@@ -117,6 +118,7 @@ def run_unit(unit, seed=0):
     eng.externals = ext.call_external
     eng.loop_budgets = dict(unit.loop_budgets)
     eng.int_mode = unit.int_only
+    eng.const_generics = dict(unit.const_generics)
     eng.lin_inc = unit.lin_inc
     eng.base = list(unit.base)
     res = {'name': unit.name, 'obligations': [], 'paths': 0, 'blocks': 0, 'queries': 0, 'solver_s': 0.0, 'unsupported': [], 'panic_paths': 0,
